@@ -137,6 +137,9 @@ type waiter struct {
 	fire    context.CancelFunc // deadline waiter: simulates expiry of the deadline
 	dl      bool
 	started time.Time
+	// sawCancel: the barrier was cancelled and cleared in one breath while this waiter was parked: it may have seen the
+	// cancellation (and then returns this error, whenever it gets to run) or not (and then waits on)
+	sawCancel error
 }
 
 func errName(e error) string {
@@ -182,11 +185,17 @@ func c11Check(c c11Case) kit.Outcome {
 	settle := func(step int, op c11Op) bool {
 		var still []*waiter
 		for _, w := range waiters {
+			if w.gate < 0 {
+				continue
+			}
 			m := model[w.gate]
 			if m.open() {
 				want := m.result()
 				select {
 				case got := <-w.done:
+					if w.sawCancel != nil && errors.Is(got, w.sawCancel) {
+						continue
+					}
 					if !errors.Is(got, want) && !(got == nil && want == nil) {
 						out.Violate("C11/wrong-result", "step %d %+v: waiter %d on gate %d returned %s, model says %s; history %v", step, op, w.id, w.gate, errName(got), errName(want), history)
 						return false
@@ -208,6 +217,10 @@ func c11Check(c c11Case) kit.Outcome {
 			for _, w := range waiters {
 				select {
 				case got := <-w.done:
+					if w.sawCancel != nil && errors.Is(got, w.sawCancel) {
+						w.gate = -1 // it had seen the cancellation: gone, legitimately
+						continue
+					}
 					m := model[w.gate]
 					out.Violate("C11/premature-return", "step %d %+v: waiter %d on gate %d returned %s although arrived=%d count=%d cancelled=%v; history %v", step, op, w.id, w.gate, errName(got), m.arrived, m.count, m.cancelled, history)
 					return false
@@ -309,6 +322,45 @@ func c11Check(c c11Case) kit.Outcome {
 			}
 			sawCancel = true
 			obj.cancel(e)
+		case "cancelclear":
+			// a cancellation immediately followed by the clearing (a reset does exactly that): a parked waiter either sees the
+			// cancellation - and returns its error - or does not - and waits on (or returns success if the cleared barrier
+			// is complete at once, initial count 0). It never returns success from a barrier that is neither complete nor cancelled.
+			e := c11Err(op.Err)
+			wantErr := e
+			if wantErr == nil {
+				wantErr = core.ErrGateCanceled
+			}
+			if len(waiters) == 0 {
+				applied = false
+				break
+			}
+			obj.cancel(e)
+			obj.clear()
+			for gi, l := range model {
+				l.cancelled, l.err, l.arrived, l.count = false, nil, 0, obj.initial[gi]
+			}
+			for _, w := range waiters {
+				w.sawCancel = wantErr
+			}
+			out.Nontrivial = true
+			out.Label("nt:cancel-clear-in-one-breath")
+			if !settle(step, op) {
+				return out
+			}
+			for gi, go_ := range obj.gates {
+				if go_.setCount != nil {
+					n := op.N
+					if gi != g {
+						n = op.N2
+					}
+					model[gi].count = n
+					if err := go_.setCount(n); err != nil {
+						out.Violate("C11/setcount-after-clear", "step %d: SetCount(%d) after Clear on gate %d returned %s", step, n, gi, errName(err))
+						return out
+					}
+				}
+			}
 		case "clear":
 			if sawCancel && sawRearmAfterCancel {
 				out.Nontrivial = true
@@ -461,7 +513,7 @@ func c11Gen(t *rapid.T) c11Case {
 			Waiters: rapid.IntRange(1, 6).Draw(t, "waiters"), Cancel: rapid.Bool().Draw(t, "cancel")}
 	}
 	small := rapid.OneOf(rapid.Uint16Range(0, 4), rapid.Uint16Range(0, 4), rapid.SampledFrom([]uint16{65534, 65535, 1000}))
-	kinds := []string{"walk", "walk", "walk", "setcount", "reset", "cancel", "clear", "wait", "wait", "wait"}
+	kinds := []string{"walk", "walk", "walk", "setcount", "reset", "cancel", "clear", "cancelclear", "wait", "wait", "wait"}
 	if obj == "gate" {
 		kinds = append(kinds, "register")
 	}
@@ -490,6 +542,9 @@ func c11Fixed() []c11Case {
 		{Object: "invokeflow", Ops: []c11Op{{K: "wait", Gate: 1}, {K: "cancel", Err: 1}, {K: "reset"}, {K: "wait", Gate: 0}, {K: "clear", N: 1, N2: 1}, {K: "wait", Gate: 2}, {K: "walk", Gate: 2}}},
 		// clearing a gate whose initial count is 0 completes the condition (0 arrivals of 0 expected): parked waiters return
 		{Object: "gate", Count: 0, Ops: []c11Op{{K: "setcount", N: 2}, {K: "walk"}, {K: "wait"}, {K: "wait"}, {K: "clear"}, {K: "wait"}}},
+		// cancelled and cleared in one breath: the waiter returns the cancellation error or waits on, never success
+		{Object: "gate", Count: 1, Ops: []c11Op{{K: "wait"}, {K: "wait"}, {K: "cancelclear", Err: 1, N: 1}, {K: "walk"}}},
+		{Object: "invokeflow", Ops: []c11Op{{K: "wait", Gate: 0}, {K: "wait", Gate: 1}, {K: "cancelclear", Err: 2, N: 1, N2: 1}, {K: "walk", Gate: 0}, {K: "walk", Gate: 1}}},
 		{Object: "initflow", Ops: []c11Op{{K: "setcount", Gate: 0, N: 2}, {K: "walk", Gate: 0}, {K: "wait", Gate: 0}, {K: "wait", Gate: 1}, {K: "clear"}, {K: "wait", Gate: 0}}},
 	}
 }
